@@ -45,6 +45,8 @@ type Hist struct {
 	lines     int
 	stats     map[string]int
 	desc      string
+	tw        *Twin
+	twinT     int
 }
 
 type simBuilder struct{ h *Hist }
@@ -163,6 +165,7 @@ func (h *Hist) initController() bool {
 	})
 	if ok {
 		h.ctl = ctl
+		h.initTwin()
 	}
 	return ok
 }
@@ -193,6 +196,9 @@ func (h *Hist) shift(d time.Duration) {
 		}
 	}
 	h.ctl.VerifShiftClock(d)
+	if h.tw != nil {
+		h.tw.ctl.VerifShiftClock(d)
+	}
 	h.emit(map[string]interface{}{"op": "shift", "d": int64(d)})
 }
 
@@ -295,6 +301,15 @@ func (h *Hist) scan(faults map[int]bool, failDesc map[string]bool) (string, erro
 		ppods = append(ppods, protoPod(p))
 	}
 
+	var pre []preLock
+	twinMode := ""
+	if h.tw != nil {
+		for _, c := range h.cfgs {
+			st, _ := h.ctl.VerifGroupState(c.Name)
+			pre = append(pre, preLock{st.LockTimeSet, st.LockTimeNs, int64(c.ScaleUpCoolDownPeriodDuration())})
+		}
+		twinMode = h.twinPrepare(sec)
+	}
 	h.rec.reset()
 	for k, v := range faults {
 		h.rec.FailAt[k] = v
@@ -318,6 +333,13 @@ func (h *Hist) scan(faults map[int]bool, failDesc map[string]bool) (string, erro
 		}
 	}
 	h.ctl.VerifQuantise(frozen, frozen)
+	var twin interface{}
+	if h.tw != nil {
+		t := h.tw.t
+		if d := h.twinRun(sec, frozen, faults, failDesc, outcome, pre, twinMode); len(d) > 0 {
+			twin = map[string]interface{}{"t": h.cfgs[t].Name, "mode": twinMode, "diffs": d}
+		}
+	}
 
 	// absorb the API store
 	var kept []*WNode
@@ -369,10 +391,14 @@ func (h *Hist) scan(faults map[int]bool, failDesc map[string]bool) (string, erro
 	if desc == nil {
 		desc = [][2]interface{}{}
 	}
-	h.emit(map[string]interface{}{
+	line := map[string]interface{}{
 		"op": "scan", "nowMock": sec * 1_000_000_000, "nowReal": frozen.UnixNano(), "pods": ppods, "nodes": pnodes,
 		"hints": hints, "resps": nnResps(h.rec.Resps), "desc": desc, "obs": obs,
-	})
+	}
+	if twin != nil {
+		line["twin"] = twin
+	}
+	h.emit(line)
 	return outcome, nil
 }
 
